@@ -155,7 +155,7 @@ func groupBySQLScenario(r *Run, mode string) {
 	var lastWM time.Time
 	nOut := 0
 	produce := func(ctx execution.ProduceContext, rec execution.Record) error {
-		r.Log("  out %s", Msg{Kind: MsgRec, Values: rec.Values, Retr: rec.Retraction, ET: rec.EventTime})
+		r.SinkLog("  out %s", Msg{Kind: MsgRec, Values: rec.Values, Retr: rec.Retraction, ET: rec.EventTime})
 		nOut++
 		d := 1
 		if rec.Retraction {
@@ -173,7 +173,7 @@ func groupBySQLScenario(r *Run, mode string) {
 		return nil
 	}
 	metaSend := func(ctx execution.ProduceContext, msg execution.MetadataMessage) error {
-		r.Log("  out wm(%s)", Sec(msg.Watermark))
+		r.SinkLog("  out wm(%s)", Sec(msg.Watermark))
 		nOut++
 		if mode == "C18" && msg.Watermark.Before(lastWM) {
 			a := map[string]string{"node": "group_by_sql", "trigger": attrs["trigger"]}
